@@ -106,6 +106,8 @@ type boundaryCase struct {
 	Kind   string // qc | tc | aggqc
 	K      int    // number of distinct valid signatures in the certificate
 	Pad    int    // further signer labels without a signature behind them (BLS: bits in the participants field; ECDSA/EdDSA: entries without bytes); an aggregate certificate lists no message for them
+	Rep    int    `json:",omitempty"` // ECDSA/EdDSA: further ENTRIES that repeat the genuine signatures of the K signers (the count of entries reaches the threshold, the count of replicas does not)
+	Arr    int    `json:",omitempty"` // arrangement of the repeated entries: 0 appended in signer order (1 2 | 1 2 1), 1 each next to its original (1 1 1 2 2), 2 appended in reverse order (1 2 | 2 1 2)
 }
 
 // TestC20CertBoundary: q-1 distinct valid signatures are refused and q accepted by every certificate check.
@@ -124,15 +126,24 @@ func TestC20CertBoundary(t *testing.T) {
 						if k == n && n == q {
 							continue
 						}
-						if !yield(boundaryCase{s, n, kind, k, 0}) {
+						if !yield(boundaryCase{Scheme: s, N: n, Kind: kind, K: k}) {
 							return
 						}
 					}
 					// the COUNT of signers reaches the threshold, the signatures do not: q-1 real ones padded with labels
 					if q-1 >= 1 && q <= n {
 						for _, pad := range []int{1, n - (q - 1)} {
-							if !yield(boundaryCase{s, n, kind, q - 1, pad}) {
+							if !yield(boundaryCase{Scheme: s, N: n, Kind: kind, K: q - 1, Pad: pad}) {
 								return
+							}
+						}
+						if s != "bls12" {
+							for _, rep := range []int{1, n - (q - 1)} {
+								for arr := 0; arr < 3; arr++ {
+									if !yield(boundaryCase{Scheme: s, N: n, Kind: kind, K: q - 1, Rep: rep, Arr: arr}) {
+										return
+									}
+								}
 							}
 						}
 					}
@@ -195,17 +206,29 @@ func boundaryProp(c boundaryCase) common.Result {
 		return common.Fail(kit.KnownBLS, "%s n=%d: %s with %d distinct valid signatures is rejected (%v) although the signature satisfies the verification equation in other arrangements", c.Scheme, c.N, c.Kind, c.K, err)
 	}
 	if accepted != (c.K >= q) {
-		return common.Fail("threshold:"+c.Kind, "%s n=%d q=%d: %s with %d distinct valid signatures and %d labels without a signature: accepted=%v (err=%v)", c.Scheme, c.N, q, c.Kind, c.K, c.Pad, accepted, err)
+		return common.Fail("threshold:"+c.Kind, "%s n=%d q=%d: %s with %d distinct valid signatures, %d labels without a signature and %d repeated entries (arrangement %d): accepted=%v (err=%v)", c.Scheme, c.N, q, c.Kind, c.K, c.Pad, c.Rep, c.Arr, accepted, err)
 	}
 	cls := []string{c.Kind, c.Scheme}
 	if c.Pad > 0 {
 		cls = append(cls, "padded-labels")
+	}
+	if c.Rep > 0 {
+		cls = append(cls, fmt.Sprintf("repeated-entries arrangement=%d", c.Arr))
 	}
 	return common.OK(true, "", cls...)
 }
 
 // padLabels adds c.Pad signer labels of replicas that did not sign (the members after the first c.K) to a signature.
 func padLabels(sig hotstuff.QuorumSignature, ms []*kit.Member, c boundaryCase) hotstuff.QuorumSignature {
+	if c.Rep > 0 {
+		switch m := sig.(type) {
+		case crypto.Multi[*crypto.ECDSASignature]:
+			return crypto.Multi[*crypto.ECDSASignature](repeatEntries([]*crypto.ECDSASignature(m), c.Rep, c.Arr))
+		case crypto.Multi[*crypto.EDDSASignature]:
+			return crypto.Multi[*crypto.EDDSASignature](repeatEntries([]*crypto.EDDSASignature(m), c.Rep, c.Arr))
+		}
+		return sig
+	}
 	if c.Pad == 0 {
 		return sig
 	}
@@ -241,6 +264,35 @@ func padLabels(sig hotstuff.QuorumSignature, ms []*kit.Member, c boundaryCase) h
 	return sig
 }
 
+
+// repeatEntries adds rep entries that repeat the given ones (round robin), arranged as boundaryCase.Arr says.
+func repeatEntries[T any](orig []T, rep, arr int) []T {
+	if len(orig) == 0 {
+		return orig
+	}
+	switch arr {
+	case 1:
+		var out []T
+		for i, e := range orig {
+			out = append(out, e)
+			for k := i; k < rep; k += len(orig) {
+				out = append(out, e)
+			}
+		}
+		return out
+	case 2:
+		out := append([]T(nil), orig...)
+		for k := 0; k < rep; k++ {
+			out = append(out, orig[len(orig)-1-k%len(orig)])
+		}
+		return out
+	}
+	out := append([]T(nil), orig...)
+	for k := 0; k < rep; k++ {
+		out = append(out, orig[k%len(orig)])
+	}
+	return out
+}
 
 // ---- membership histories: the threshold in use is always the one of the membership configured so far -------------------
 
